@@ -25,6 +25,15 @@ pub const FILE_NAMES: &[&str] = &[
     "a.sol:5",
     " lead and trail .sol",
     "tab\there.sol",
+    "my_token.sol",
+    "a*b.sol",
+    "p|q.sol",
+    "`tick`.sol",
+    "<x>.sol",
+    "[1](2).sol",
+    "back\\slash.sol",
+    "#hash.sol",
+    "~tilde~.sol",
     "## Low Risk.sol",
 ];
 
@@ -66,6 +75,29 @@ pub fn gen_entries(rng: &mut Rng, t: &Tables) -> Vec<(Pat, String, Vec<i32>)> {
                 lines.dedup();
                 out.push((p, f, lines));
             }
+        }
+    }
+    // rare: very long lists (a counter that is too narrow, a list that is cut off)
+    if !out.is_empty() {
+        match rng.below(200) {
+            0 | 1 | 2 => {
+                // 300-1200 entries under one pattern
+                let p = out[rng.below(out.len())].0;
+                let files = rng.range(10, 30);
+                for f in 0..files {
+                    let lines: Vec<i32> = (0..rng.range(30, 40)).map(|i| (i * 3 + f) as i32).collect();
+                    out.push((p, format!("many{}.sol", f), lines));
+                }
+            }
+            3 => {
+                // more than 65 536 entries in one category
+                let p = out[rng.below(out.len())].0;
+                for f in 0..70 {
+                    let lines: Vec<i32> = (1..=1000).collect();
+                    out.push((p, format!("huge{}.sol", f), lines));
+                }
+            }
+            _ => {}
         }
     }
     rng.shuffle(&mut out);
